@@ -129,6 +129,45 @@ def multi_stage_rechunk_graphs(chk, da, coq_cases):
             run_collection(chk, mk, {"program": label}, ("multi-stage-rechunk", label, optimize), "rechunk", False, optimize, coq_cases, cfg)
 
 
+def updated_in_place_graphs(chk, da, coq_cases):
+    """collections whose keys / graph were read and which are then updated IN PLACE (setitem, mask assignment, ufunc out=,
+    compute_chunk_sizes): the keys advertised afterwards must be the grid of the CURRENT name and be defined by the current graph"""
+    import random as _random
+    import numpy as np
+    rng = _random.Random(f"C04-in-place-{chk.seed}")
+    for it in range(300 if chk.tier == "thorough" else 40):
+        shape = (rng.choice([6, 9]),) if rng.random() < 0.5 else (4, rng.choice([3, 5]))
+        data = np.arange(float(np.prod(shape))).reshape(shape) - 3
+        chunks = tuple(progs.rand_chunks_for(rng, n) for n in shape)
+        peek = rng.choice(["keys", "graph", "compute", "keys+compute"])
+        update = rng.choice(["setitem-slice", "setitem-int", "setitem-mask", "ufunc-out", "compute_chunk_sizes"])
+
+        def mk(peek=peek, update=update, data=data, chunks=chunks):
+            x = da.from_array(data, chunks=chunks) + 1
+            if update == "compute_chunk_sizes":
+                x = x[x > 0]
+            if "keys" in peek:
+                x.__dask_keys__()
+            if peek == "graph":
+                dict(x.__dask_graph__())
+            if "compute" in peek:
+                x.compute(scheduler="sync")
+            if update == "setitem-slice":
+                x[1:3] = 7.0
+            elif update == "setitem-int":
+                x[0] = 5.0
+            elif update == "setitem-mask":
+                x[x > 2] = -1.0
+            elif update == "ufunc-out":
+                da.add(x, 2.0, out=x)
+            else:
+                x.compute_chunk_sizes()
+            return x
+        chk.count("in-place:" + update)
+        run_collection(chk, mk, {"program": f"read ({peek}), then {update}", "chunks": chunks}, ("in-place", peek, update, shape, repr(chunks), it),
+                       "in-place:" + update, False, it % 2 == 0, coq_cases, {})
+
+
 def replay(path):
     print(open(path).read())
 
@@ -155,6 +194,7 @@ def run(chk: Check):
         chk.count("api-call:" + next(q[1] for q in progs.all_nodes(prog) if q[0] == "call"))
         run_program(chk, da, prog, sources, optimize=(i % 2 == 0), coq_cases=coq_cases)
     multi_stage_rechunk_graphs(chk, da, coq_cases)
+    updated_in_place_graphs(chk, da, coq_cases)
     if G is not None and coq_cases:
         if chk.tier == "quick":
             coq_cases = coq_cases[:200]      # the rest is checked by the Python analysis only (coqc parsing dominates)
